@@ -116,7 +116,27 @@ template<class CT> void c_dynamic_case(Ctx &c) {
     uint64_t kbase = r.pick<uint64_t>({0, D::R - keyspace, (D::R - keyspace) / 2});
     auto key = [&](uint64_t i) { return D::to_key(kbase + std::min(i, keyspace)); };
     auto val = [&]() { return K(r.below(1000)); }; // never the reserved maximum
-    if (c.given) {
+    const bool giant = !c.given && sizeof(K) == 8 && c.args.geti("giant", 0) == 0 && c.case_idx % 97 == 13;
+    if (giant) {
+        // > 8^7 pairs: the only way, through the C interface, to get a level that owns a PGM-index (default index level);
+        // runs of consecutive erased keys right at lower_bound positions, a few bounded walks
+        size_t nb = 2100000 + r.below(200000);
+        uint64_t cur = kbase = r.chance(1, 2) ? 0 : D::R / 2;
+        bulk.reserve(nb);
+        for (size_t i = 0; i < nb; ++i) { bulk.push_back({D::to_key(cur), val()}); cur += 1 + r.below(3); }
+        for (int run = 0; run < 4; ++run) {
+            size_t start = 1000 + r.below(nb - 5000), len = 18 + r.below(50);
+            for (size_t i = start; i < start + len; ++i) ops.push_back({'E', bulk[i].first, 0});
+            ops.push_back({'G', bulk[start].first, 0});                 // lower_bound at the first erased key
+            ops.push_back({'G', K(bulk[start - 1].first + 1), 0});      // ... and in the gap before it
+            ops.push_back({'F', bulk[start + len / 2].first, 0});
+            ops.push_back({'F', bulk[start + len].first, 0});
+            ops.push_back({'I', bulk[start + 1].first, val()});         // re-insert one of them
+            ops.push_back({'G', bulk[start].first, 0});
+        }
+        ops.push_back({'G', std::numeric_limits<K>::lowest(), 0});
+        ops.push_back({'S', 0, 0});
+    } else if (c.given) {
         auto b = c.given->template vec<K>("bulk_kv");
         for (size_t i = 0; i + 1 < b.size(); i += 2) bulk.push_back({b[i], b[i + 1]});
         auto &o = c.given->get("ops");
@@ -151,6 +171,7 @@ template<class CT> void c_dynamic_case(Ctx &c) {
     c.dumper = [&]() {
         Spec s;
         s.set_one("config", c.cfg.name); s.set_one("case", c.case_idx);
+        if (giant) { s.set_one("note", "giant case: regenerate from seed/config/case"); return s; }
         std::vector<K> b;
         for (auto &p : bulk) { b.push_back(p.first); b.push_back(p.second); }
         s.set_vec("bulk_kv", b);
@@ -214,6 +235,25 @@ template<class CT> void c_dynamic_case(Ctx &c) {
                 break;
             }
             case 'L': walk(CT::dlower(x, op.k), m.lower_bound(op.k), opi, "lower_bound"); break;
+            case 'G': { // bounded walk: the first 5 pairs from lower_bound(k)
+                void *it = CT::dlower(x, op.k);
+                auto mi = m.lower_bound(op.k);
+                K k2, v2;
+                for (int st = 0; st < 5; ++st) {
+                    bool more = CT::dnext(x, it, &k2, &v2);
+                    bool emore = mi != m.end();
+                    if (judge && (more != emore || (more && (k2 != mi->first || v2 != mi->second)))) {
+                        c.violation("c_iteration_mismatch", J().str("start", "lower_bound (bounded walk)").num("after_op", opi).num("step", st).num("query", op.k)
+                                                                .boolean("got_pair", more).boolean("expected_pair", emore).num("got_key", more ? k2 : K(0)).num("expected_key", emore ? mi->first : K(0)));
+                        break;
+                    }
+                    if (!more) break;
+                    ++mi;
+                }
+                CT::ditdestroy(it);
+                ++walks;
+                break;
+            }
             case 'B': walk(CT::dbegin(x), m.begin(), opi, "begin"); break;
             default: {
                 size_t s = CT::dsize(x);
@@ -245,6 +285,7 @@ template<class CT> void c_dynamic_case(Ctx &c) {
     c.maxc("max_live_keys", max_live);
     if (max_live > 600) c.count("histories_beyond_buffer");
     if (max_live > 8000) c.count("deep_histories_three_levels");
+    if (giant) c.count("giant_histories_indexed_level");
     c.nontrivial = max_live > 600; // the default buffer holds 585 entries: beyond it at least one merge happened
     if (c.prop("C17")) c.nontrivial = true;
     if (c.want_sample()) c.sample(J().num("ops", ops.size()).num("bulk", bulk.size()).num("final_size", m.size()));
